@@ -864,9 +864,16 @@ class CallMixin:
             self.ctx.assume(z3.Length(r) == z3.Length(s))
             return SV(TStr, r)
         if attr == "strip" and not args:
-            r = self.ctx.fresh(TStr, "strip")
+            # a named function of the string (deterministic), with the facts the proofs need
+            key = "uf:py_strip"
+            if key not in sorts._cache:
+                sorts._cache[key] = z3.Function("py_strip", z3.StringSort(), z3.StringSort())
+            r = SV(TStr, sorts._cache[key](s))
             self.ctx.assume(z3.Contains(s, r.t))
             self.ctx.assume(z3.Implies(z3.Length(s) == 0, z3.Length(r.t) == 0))
+            # text without any white space is returned as it is
+            ws = z3.Union(*[z3.Re(c) for c in " \t\n\r\x0b\x0c"])
+            self.ctx.assume(z3.Implies(z3.InRe(s, z3.Star(z3.Intersect(z3.Range(chr(0), chr(255)), z3.Complement(ws)))), r.t == s))
             return r
         if attr == "isdigit":
             return mk_bool(z3.InRe(s, z3.Plus(z3.Range("0", "9"))))
